@@ -83,6 +83,47 @@ theorem custom_mismatch_no_call (env : Env) (c : CustomSpec) (path : List String
     proc env .parse (.custom c) none path v d st = (d, emit st (coerceIssue env (render path) "custom")) := by
   unfold proc; simp [h]
 
+/-! ## Preprocess -/
+
+/-- Parse: a type mismatch at a Preprocess node becomes ONE coerce issue at the node's path; the
+    function is not called and the wrapped schema is skipped (destination and log untouched) -/
+theorem pre_mismatch_skips (env : Env) (ps : PreSpec) (inner : Schema) (tag : Option String) (path : List String)
+    (v : Val) (d : DVal) (st : St) (h : ps.accept v = false) :
+    proc env .parse (.pre ps inner) tag path v d st = (d, emit st (coerceIssue env (render path) inner.dtype)) := by
+  unfold proc; simp [h]
+
+/-- Parse: the function is called once, with the node's own input value; its error becomes ONE issue
+    wrapping it at the node's path (a returned ZogIssue is reported as it is) and the wrapped schema
+    is skipped -/
+theorem pre_error_skips (env : Env) (ps : PreSpec) (inner : Schema) (tag : Option String) (path : List String)
+    (v v' : Val) (e : PostErr) (d : DVal) (st : St) (h : ps.accept v = true) (hr : ps.run v = (v', some e)) :
+    proc env .parse (.pre ps inner) tag path v d st =
+      (d, emit { st with log := st.log ++ [⟨.pre, ps.id, render path, .custom v⟩] }
+            (issueOfPostErr env (render path) inner.dtype e)) := by
+  unfold proc; simp [h, hr]
+
+/-- Parse: on success the wrapped schema processes the function's result at the same path, into the
+    same destination, after exactly one logged call with the node's own value -/
+theorem pre_ok_runs_inner (env : Env) (ps : PreSpec) (inner : Schema) (tag : Option String) (path : List String)
+    (v v' : Val) (d : DVal) (st : St) (h : ps.accept v = true) (hr : ps.run v = (v', none)) :
+    proc env .parse (.pre ps inner) tag path v d st =
+      proc env .parse inner tag path v' d { st with log := st.log ++ [⟨.pre, ps.id, render path, .custom v⟩] } := by
+  conv => lhs; unfold proc
+  simp [h, hr]
+
+/-- Validate: the function is called with the destination's own value; an error is one issue carrying
+    the error text and skips the wrapped schema; otherwise its result is stored and then validated -/
+theorem pre_validate (env : Env) (ps : PreSpec) (inner : Schema) (tag : Option String) (path : List String)
+    (v : Val) (d : DVal) (st : St) :
+    proc env .validate (.pre ps inner) tag path v d st =
+      (match ps.runD d with
+       | (_, some msg) => (d, emit { st with log := st.log ++ [⟨.pre, ps.id, render path, d⟩] }
+                                (preErrIssue env (render path) inner.dtype msg))
+       | (d', none) => proc env .validate inner tag path v d' { st with log := st.log ++ [⟨.pre, ps.id, render path, d⟩] }) := by
+  conv => lhs; unfold proc
+  rcases hr : ps.runD d with ⟨d', e⟩
+  cases e <;> rfl
+
 /-- the mechanism model records exactly the reference log: same callbacks, same order, same
     arguments, for every schema, nesting, mode and visit order -/
 theorem engine_log_is_spec_log (env : Env) (m : Mode) (s : Schema) (tag : Option String) (v : Val) (d : DVal) :
